@@ -339,6 +339,14 @@ func sigintRun(s *sigRun, boundMs int64) string {
 			}
 		}
 	}()
+	// a signal sent between fork and exec is taken by the forked copy of the harness, not by sx: the delay counts from
+	// the moment the process IS sx (on a loaded machine the exec can be tens of milliseconds away)
+	self, _ := os.Readlink("/proc/self/exe")
+	for t0 := time.Now(); time.Since(t0) < 3*time.Second; time.Sleep(200 * time.Microsecond) {
+		if exe, err := os.Readlink(fmt.Sprintf("/proc/%d/exe", p.cmd.Process.Pid)); err != nil || exe != self {
+			break
+		}
+	}
 	time.Sleep(s.delay)
 	early := p.exited()
 	t0 := time.Now()
